@@ -132,7 +132,10 @@ def handle : List String → Option String
     let (hasRet, cls, st) := match ret.splitOn ":" with
       | [c, s] => (true, c, s)
       | _ => (false, "", "")
-    some (toString (GoSup.Spec.C08.holdsStream ss sb hasRet cls st (kvOf rest "closed" == some "1") (kvOf rest "single" != some "0")))
+    let sx := match kvOf rest "sx" with
+      | some "none" | none => []
+      | some v => (v.splitOn "|").map fun x => (x.splitOn ">").filter (· ≠ "")
+    some (toString (GoSup.Spec.C08.holdsStream ss sb hasRet cls st (kvOf rest "closed" == some "1") (kvOf rest "single" != some "0") sx))
   | "c12busyholds" :: rest => do
     -- every configured address is held by a foreign listener: the runner never reports Running
     let ss := ((kvOf rest "ss").getD "").splitOn ">" |>.filter (· ≠ "")
@@ -145,7 +148,10 @@ def handle : List String → Option String
     let (hasRet, cls, st) := match ret.splitOn ":" with
       | [c, s] => (true, c, s)
       | _ => (false, "", "")
-    some (toString (GoSup.Spec.C08.knownC08F1 ss sb hasRet cls st (kvOf rest "closed" == some "1") (kvOf rest "single" != some "0")))
+    let sx := match kvOf rest "sx" with
+      | some "none" | none => []
+      | some v => (v.splitOn "|").map fun x => (x.splitOn ">").filter (· ≠ "")
+    some (toString (GoSup.Spec.C08.knownC08F1 ss sb hasRet cls st (kvOf rest "closed" == some "1") (kvOf rest "single" != some "0") sx))
   | "httpseq" :: rest => do let (i, t) ← parseAll rest; some (httpseq i t)
   | _ => none
 
